@@ -128,7 +128,7 @@ def library_stream(chk, rng, n, stats):
     ]
     names = ["a.txt", "b.txt", "c.dat", "Readme", "x.tar.gz", "IMG_1.jpg", "img_2.JPG", "é.txt", "a b.c", "z"]
     for _ in range(n):
-        roots = rng.sample(["in", "in2", "d/in"], rng.randrange(1, 4))
+        roots = rng.sample(["in", "in2", "d/in", ".cache/in3"], rng.randrange(1, 4))      # (an input directory may itself lie below a hidden one)
         spec = [("out/keep.txt", "f", "keep")]
         cid = 0
         for r in roots:
